@@ -63,7 +63,7 @@ func runC02(c *Ctx) {
 	// R2.2
 	for _, fn := range p.FuncsMatching("doCanaryUpgrade") {
 		for _, ret := range returnsOf(fn) {
-			for _, lf := range Leaves(ret.Results[0], ret.Block()) {
+			for _, lf := range BoolLeaves(ret.Results[0], ret.Block()) {
 				t := TermOf(lf.V)
 				if t.Op != "const" {
 					c.Ob("R2.2", FuncName(fn)+"#return(non-constant)", ret.Pos(), false, "done result is not a constant", "undecided: "+t.String())
@@ -95,7 +95,7 @@ func runC02(c *Ctx) {
 	// R2.3
 	for _, fn := range p.FuncsMatching("doCanaryPaused") {
 		for _, ret := range returnsOf(fn) {
-			for _, lf := range Leaves(ret.Results[0], ret.Block()) {
+			for _, lf := range BoolLeaves(ret.Results[0], ret.Block()) {
 				t := TermOf(lf.V)
 				if t.Op != "const" {
 					c.Ob("R2.3", FuncName(fn)+"#return(non-constant)", ret.Pos(), false, "done result is not a constant", "undecided: "+t.String())
